@@ -8,6 +8,9 @@
 (P) per-task counters on the implementation's trace: Lean monitors C02_at_most_once / C02_inside_closure /
     C02_all_processed, cross-checked by runlib.py_monitor_c02.  A crash or hang of the runner on an acyclic graph counts
     as "not all processed".
+Round 6: history cases (runlib.apply_history, knob p_history) -- the measured run is the SECOND run on its DB: calc tasks
+    that an earlier run executed (uptodate=[run_once]) are up-to-date and deliver their saved values, also when they are
+    processed before anybody waits for them (`doit scan build`); seeds corpus/C02/48-history-*.json.
 Found by this check and fixed upstream since (fixed: line in findings/known-findings.txt): dup-selection-truncates
 (`doit a a b` silently dropped b); seeds corpus/C02/dup-selection*.json, seeded/revert-F-C02-dupsel.
 """
@@ -68,12 +71,16 @@ META = {
             '(run/up-to-date/error, ignored, ok/failed/error, teardown), flags, selection all/names/targets, runner '
             'serial | thread k=1..4 x schedule policy | process k=2,3; plus structured large graphs (50-300 tasks: chain, fan-out, '
             'fan-in, layers, ladder, groups; serial, thread -n 2..8, process); wave-4 shapes (wildcard task_dep, 2-3 actions, '
-            'several teardown callables, late group attributes, calc results with uptodate / unknown keys / str); non-trivial = has a dependency edge and at least '
+            'several teardown callables, late group attributes, calc results with uptodate / unknown keys / str); round-6 '
+            'history (p_history: an earlier serial run on the same DB executes 1-2 calc tasks with uptodate=[run_once]; in '
+            'the measured run they are up-to-date, deliver their SAVED values and are mostly selected before the task that '
+            'has them as calc_dep; counters history:*); non-trivial = has a dependency edge and at least '
             'one task reported; distinct = distinct rendered case + schedule',
     'assumptions': ['actions touch only their own targets (granularity assumption of M1 for thread mode: one transition = one thread '
                     'running from one queue operation to the next)',
                     'process-mode runs are sampled (real OS scheduling; completion order forced by tokens, pick-up order not)',
-                    'up-to-date status is produced by uptodate=[True] on a fresh DB (the status computation itself is M2)'],
+                    'up-to-date status is produced by uptodate=[True] on a fresh DB, or (history cases) by '
+                    'uptodate=[run_once] after an earlier run of the same dodo (the status computation itself is M2)'],
     'trusted': ['deterministic thread scheduler and token controller of harness/runlib.py',
                 'own dependency expansion runlib.expand (getargs/result_dep/file_dep -> edges)'],
     'models': ['M1'],
@@ -84,7 +91,7 @@ SIGNATURES = {}     # calc-wild-dep-dropped was fixed upstream (bf53535)
 
 # generator knobs of this property: shared deps, groups, shared setup-tasks, repeated selection
 KNOBS = {'p_dup_sel': 0.3, 'p_shared': 0.8, 'p_group': 0.45, 'p_meta_names': 0.2, 'p_share_lists': 0.25, 'p_combo': 0.15, 'p_calc_then_fail': 0.25,
-         'p_wild': 0.3, 'p_multi_action': 0.3, 'p_multi_teardown': 0.3, 'p_group_late': 0.35, 'p_calc_extra': 0.25,
+         'p_wild': 0.3, 'p_multi_action': 0.3, 'p_multi_teardown': 0.3, 'p_group_late': 0.35, 'p_calc_extra': 0.25, 'p_history': 0.3,
          'weights': {'task_dep': 30, 'setup': 24, 'calc_dep': 12, 'file': 10, 'getargs': 12, 'result_dep': 6,
                      'getargs_setup': 6}}
 
